@@ -123,7 +123,7 @@ def run(d, dom, pre, be, preT, beT, stop_at_solver=False):
         return None
     saved = d.bias_solver
     if stop_at_solver:
-        def stub(omega, b): raise _Stop()
+        def stub(omega, b, scale=0.): raise _Stop()
         d.bias_solver = stub
     sys.settrace(tracer)
     out = None
